@@ -1,5 +1,5 @@
 import OZ.DrvUtil
-import OZ.Model.RoleTransfer
+import OZ.Model.RoleTransferMon
 /-
 Driver for C07 (two-step hand-over of owner / admin).
 
@@ -16,7 +16,7 @@ offers (OZ.RoleTransfer.ghostStep, fed with the IMPLEMENTATION's outcomes) and e
 conclusions of Props/C07 on the implementation's observations.
 -/
 namespace OZ.Drv.C07
-open OZ.Drv OZ.RoleTransfer OZ.Host
+open OZ.Drv OZ.RoleTransfer OZ.RoleTransfer.Mon OZ.Host
 
 structure M where
   cfg : Cfg
@@ -51,18 +51,10 @@ def parseOp (ws : List String) : Option (List Nat × Op) :=
     | _ => none
   | _ => none
 
-def showOpt (o : Option Nat) : String := match o with | some a => toString a | none => "-"
-
 def showEvent : Event → String
   | .initiated o n lu => s!"xfer:{o}:{n}:{lu}"
   | .completed n p => s!"done:{n}:{showOpt p}"
   | .renounced o => s!"renounced:{o}"
-
-/-- the account a successful accept would install right now (model side of `pend=`) -/
-def pendNow (f : Flavor) (s : State) : Option Nat :=
-  match f, s.holder with
-  | .admin, none => none
-  | _, _ => Temp.get? s.pending s.now
 
 def showState (f : Flavor) (s : State) : String :=
   s!"holder={showOpt s.holder} pend={showOpt (pendNow f s)} now={s.now}"
@@ -79,12 +71,6 @@ def stepLine (m : M) (line : String) : M × String :=
 
 /-! ### monitor -/
 
-structure Obs where
-  ok : Bool
-  holder : Option Nat
-  pend : Option Nat
-  now : Nat
-
 def parseObs (line : String) : Option Obs :=
   match words line with
   | tag :: rest => do
@@ -94,94 +80,13 @@ def parseObs (line : String) : Option Obs :=
     pure { ok := tag = "ok", holder := h.toNat?, pend := p.toNat?, now }
   | _ => none
 
-structure Mon where
-  cfg : Cfg
-  g : Option Offer            -- ghost: the open offer according to the log of accepted calls
-  holder : Option Nat         -- holder observed after the previous call
-  now : Nat
-  pend : Option Nat
-
 def minit (label : String) : Mon :=
   let ws := words label
   { cfg := parseCfg ws, g := none, holder := parseHolder ws, now := (kvNat? ws "start").getD 100, pend := none }
 
-def holderIn (h : Option Nat) (auth : List Nat) : Bool :=
-  match h with | some a => auth.contains a | none => false
-
-/-- is the ghost offer open and within its acceptance window at ledger `now`? -/
-def openAt (c : Cfg) (g : Option Offer) (now : Nat) : Bool :=
-  match g with | some o => decide (now ≤ deadline c o) | none => false
-
-/-- is the ghost offer open and has its live_until_ledger not passed at ledger `now`? -/
-def liveAt (g : Option Offer) (now : Nat) : Bool :=
-  match g with | some o => decide (now ≤ o.lu) | none => false
-
-/-- the property's conclusion for one accepted / rejected call, on observed values only -/
-def verdict (m : Mon) (auth : List Nat) (op : Op) (o : Obs) : Option String :=
-  if ¬ o.ok then
-    if o.holder ≠ m.holder then some s!"site=rt.rollback a rejected call changed the holder {showOpt m.holder} -> {showOpt o.holder}"
-    else if o.pend ≠ m.pend then some "site=rt.rollback a rejected call changed what accept would do"
-    else match op with
-      | .guarded => if holderIn m.holder auth then some "site=rt.guarded.lost-control the holder authorized but was refused" else none
-      | _ => none
-  else
-    match op with
-    | .accept =>
-      match m.g with
-      | none => some "site=rt.accept.no-offer accept succeeded although no offer is open (never made, cancelled or already accepted)"
-      | some off =>
-        if ¬ auth.contains off.acct then some s!"site=rt.accept.unauthorized accept succeeded without the authorization of the invited account {off.acct}"
-        else if o.holder ≠ some off.acct then some s!"site=rt.accept.wrong-account the latest offer invites {off.acct} but the holder became {showOpt o.holder}"
-        else if ¬ holderIn off.holderThen off.auth then some "site=rt.accept.offer-unauthorized the accepted offer was not authorized by the then-holder"
-        else if off.holderThen ≠ m.holder then some "site=rt.accept.stale-holder the holder changed between offer and accept"
-        else if m.now > deadline m.cfg off then
-          some s!"site=rt.accept.expired accept succeeded at ledger {m.now} for an offer made at {off.madeAt} with live_until_ledger {off.lu} (last acceptable ledger {deadline m.cfg off})"
-        else none
-    | .renounce =>
-      if ¬ holderIn m.holder auth then some "site=rt.renounce.unauthorized renounce succeeded without the holder's authorization"
-      else if o.holder ≠ none then some "site=rt.renounce.noop renounce succeeded but a holder remains"
-      else if liveAt m.g m.now then
-        some "site=rt.renounce.pending renounce succeeded while an offer is pending and live"
-      else none
-    | .offer new lu =>
-      if o.holder ≠ m.holder then some s!"site=rt.holder.changed the holder changed {showOpt m.holder} -> {showOpt o.holder} by an offer"
-      else if ¬ holderIn m.holder auth then some "site=rt.offer.unauthorized an offer / cancellation succeeded without the holder's authorization"
-      else if lu = 0 then
-        match m.g with
-        | none => some "site=rt.cancel.no-offer a cancellation succeeded although no offer is open"
-        | some off => if off.acct ≠ new then some "site=rt.cancel.wrong-account a cancellation naming another account succeeded" else none
-      else if lu < m.now ∨ lu > m.cfg.maxLiveUntil m.now then some s!"site=rt.offer.bounds offer with live_until_ledger {lu} accepted at ledger {m.now}"
-      else none
-    | .guarded =>
-      if o.holder ≠ m.holder then some "site=rt.holder.changed the holder changed by a guarded call"
-      else if ¬ holderIn m.holder auth then some "site=rt.guarded.unauthorized a holder-only function ran without the holder's authorization"
-      else none
-    | .advance _ =>
-      -- nothing that must persist may change while nobody touches the contract
-      if o.holder ≠ m.holder then
-        some s!"site=rt.idle.changed the holder changed {showOpt m.holder} -> {showOpt o.holder} by the mere passage of time (ledger {m.now} -> {o.now})"
-      else none
-
 def check (m : Mon) (opl obs : String) : Mon × Option String :=
   match parseOp (words opl), parseObs obs with
-  | some (auth, op), some o =>
-    let v := verdict m auth op o
-    let g' := ghostStep m.g m.holder m.now auth op o.ok
-    -- what accept WOULD do now must be covered by an open, live offer to that account
-    let v := match v with
-      | some x => some x
-      | none =>
-        match o.pend with
-        | none => none
-        | some p =>
-          match g' with
-          | none => some s!"site=rt.probe.no-offer account {p} could accept at ledger {o.now} although no offer is open"
-          | some off =>
-            if off.acct ≠ p then some s!"site=rt.probe.wrong-account account {p} could accept but the open offer invites {off.acct}"
-            else if o.now > deadline m.cfg off then
-              some s!"site=rt.probe.expired account {p} could still accept at ledger {o.now}: offer made at {off.madeAt} with live_until_ledger {off.lu} (last acceptable ledger {deadline m.cfg off})"
-            else none
-    ({ m with g := g', holder := o.holder, now := o.now, pend := o.pend }, v)
+  | some (auth, op), some o => checkCore m auth op o
   | _, _ => (m, some s!"site=rt.parse unparsable op/observation: {opl} / {obs}")
 
 def machine : Machine where
